@@ -627,3 +627,123 @@ def o_C12(x, ctx):
 
 
 ORACLES.update({'C12': o_C12})
+
+
+# ---------------------------------------------------------------------------------------------
+def active_states_of(canon, z, m):
+    """State objects active from machine m downwards, following the reported ids"""
+    f = snapshot_fields(canon)
+    out = []
+
+    def walk(mm):
+        ids = [int(v) for v in f['machines'][mm.mid]['a'].split(',')]
+        for i in ids:
+            st = [s for s in mm.states if s.lib_id == i]
+            if st:
+                out.append(st[0])
+                if st[0].kind == 'sub':
+                    walk(st[0].sub)
+    walk(m)
+    return out
+
+
+def s_C17(sid, canon, intro, ctx):
+    """is_flag_active<F>() is a pure function of the active configuration (OR recursively, AND over
+    the regions of the queried machine when its active states are simple)"""
+    out = []
+    z = ctx.z
+    f = snapshot_fields(canon)
+    if not f.get('started') or not intro:
+        return out
+    led = f.get('ledger', {})
+    main, _, andpart = intro.partition(' AND:')
+    for p in main.split(';'):
+        if not p.startswith('M'):
+            continue
+        head, rest = p.split(':', 1)
+        m = [mm for mm in z.machines() if mm.mid == int(head[1:])][0]
+        if led.get(m.own_sid, 0) != 1 and m.mid != 0:
+            continue
+        act = active_states_of(canon, z, m)
+        for tok in rest.split(','):
+            if tok.startswith('F') and '=' in tok:
+                fl, val = tok[1:].split('=')
+                exp = any(fl in s.flags for s in act)
+                if (val == '1') != exp:
+                    out.append(('flag-or', f'machine {m.name}: is_flag_active<{fl}>() = {val} but the active configuration {[s.name for s in act]} {"carries" if exp else "does not carry"} it'))
+    for tok in andpart.split(','):
+        if not tok or '=' not in tok:
+            continue
+        lhs, val = tok.split('=')
+        mid, fl = lhs[1:].split('.')
+        m = [mm for mm in z.machines() if mm.mid == int(mid)][0]
+        if led.get(m.own_sid, 0) != 1 and m.mid != 0:
+            continue
+        ids = [int(v) for v in f['machines'][m.mid]['a'].split(',')]
+        sts = [[s for s in m.states if s.lib_id == i][0] for i in ids]
+        if any(s.kind == 'sub' for s in sts):
+            continue    # AND through a submachine: back forwards, backmp11 does not (documented difference)
+        exp = all(fl in s.flags for s in sts)
+        if (val == '1') != exp:
+            out.append(('flag-and', f'machine {m.name}: is_flag_active<{fl}, AND>() = {val} but the regions are in {[s.name for s in sts]}'))
+    return out
+
+
+def o_C17(x, ctx):
+    """inside behaviours the flags reflect the configuration defined by the switch policy"""
+    out = []
+    a = [(norm_tok(t, ctx.cfg, True), t.flags()) for t in x.trace if t.K in 'GANX']
+    b = [(norm_tok(t, ctx.cfg, True), t.flags()) for t in x.mtrace if t.K in 'GANX']
+    if [k for k, _ in a] != [k for k, _ in b]:
+        ctx.count('skipped_trace_diverged')
+        return out
+    for (k, fa), (_, fb) in zip(a, b):
+        if fa not in (fb or '').split('/'):
+            out.append(('flag-in-behaviour', f'inside {":".join(str(v) for v in k)} the flags read {fa}, the configuration defined by the switch policy gives {fb}'))
+            break
+    return out
+
+
+def o_C19(x, ctx):
+    """active ids reported inside guard / exit / action / entry are source or target as the policy says"""
+    out = []
+    a = [norm_tok(t, ctx.cfg, True) for t in x.trace if t.K in 'GXAN']
+    b = [norm_tok(t, ctx.cfg, True) for t in x.mtrace if t.K in 'GXAN']
+    a0 = [k[:6] for k in a]
+    b0 = [k[:6] for k in b]
+    if a0 != b0:
+        ctx.count('skipped_trace_diverged')
+        return out
+    for ka, kb in zip(a, b):
+        if ka != kb:
+            out.append(('switch-policy', f'inside {":".join(str(v) for v in ka[:5])} the machine reports active ids {ka[6]}, the {ctx.z.root.switch} policy prescribes {kb[6]}'))
+            break
+    if not out:
+        out = config_check(x, ctx)
+    return out
+
+
+def o_C18(x, ctx):
+    """event matching (exact, base class, Kleene by table position) and payload integrity"""
+    out = []
+    for t in x.trace:
+        if t.K != '!' and t.extra and 'BADPAY' in t.extra:
+            out.append(('payload', f'payload of event #{t.serial} changed on the way to {t.raw}'))
+            return out
+    # the any handed to a Kleene row holds the exact dynamic type of the submitted event
+    types = {}
+    w0 = ctx.c.worlds.get(x.src)
+    a = full_proj(x.trace, ctx.cfg)
+    b = full_proj(x.mtrace, ctx.cfg)
+    d = first_diff(a, b)
+    if d >= 0:
+        out.append(('matching', f'candidate selection / event seen by the behaviours differs at #{d}: impl [{fmt(a)}] model [{fmt(b)}]'))
+        return out
+    if not ret_status_ok(x):
+        out.append(('status', f'result code impl={x.ret} model={x.mret}'))
+    del types, w0
+    return out + config_check(x, ctx)
+
+
+ORACLES.update({'C17': o_C17, 'C18': o_C18, 'C19': o_C19})
+STATE_ORACLES.update({'C17': s_C17})
